@@ -8,6 +8,7 @@ import FunModel.Drv.C14
 import FunModel.Drv.C05
 import FunModel.Drv.C06
 import FunModel.Drv.C03
+import FunModel.Drv.C08
 
 /-! Line-protocol driver: `driver <property>` reads one S-expression per line on stdin and prints
     the model's observation for it on one line. Core Lean only (no Mathlib) so it links. -/
@@ -26,6 +27,8 @@ def handlerFor : String → Option (Sexp → String)
   | "C20" => some DrvC06.handleBoth
   | "C03" => some DrvC03.handle
   | "C17" => some DrvC16.handle
+  | "C08" => some DrvC08.handle
+  | "C09" => some DrvC08.handle
   | _ => none
 
 partial def loop (h : IO.FS.Stream) (out : IO.FS.Stream) (f : Sexp → String) : IO Unit := do
